@@ -379,4 +379,41 @@ theorem plan_scope {diff : Diff} {S : Store} {T : Config} (hS : StoreFacts S) (h
       subst e
       exact (List.mem_filter.mp (List.mem_filter.mp hg).1).2
 
+
+/-! ### Paging does not matter -/
+
+theorem pages_go_flatten {α : Type} (n : Nat) (hn : n ≠ 0) : ∀ (fuel : Nat) (l : List α), l.length < fuel →
+    (pages.go n fuel l).flatten = l := by
+  intro fuel
+  induction fuel with
+  | zero => intro l h; omega
+  | succ f ih =>
+    intro l h
+    unfold pages.go
+    by_cases hl : l.length ≤ n
+    · simp [hl]
+    · simp only [hl, if_false, List.flatten_cons]
+      rw [ih (l.drop n) (by simp [List.length_drop]; omega), List.take_append_drop]
+
+theorem pages_flatten {α : Type} (n : Nat) (l : List α) : (pages n l).flatten = l := by
+  unfold pages
+  by_cases hn : n = 0
+  · simp [hn]
+  · simp only [hn, if_false]
+    exact pages_go_flatten n hn _ l (by omega)
+
+theorem flatMap_filter_pages {α : Type} (n : Nat) (l : List α) (q : α → Bool) :
+    (pages n l).flatMap (·.filter q) = l.filter q := by
+  have : ∀ ls : List (List α), ls.flatMap (·.filter q) = ls.flatten.filter q := by
+    intro ls
+    induction ls with
+    | nil => rfl
+    | cons x xs ih => simp [List.flatMap_cons, ih]
+  rw [this, pages_flatten]
+
+/-- Whatever the page size, `LoadDevice` sees the managed objects in the manager's order. -/
+theorem loadPaged_eq (n : Nat) (S : Store) : loadPaged n S = load S := by
+  unfold loadPaged load
+  rw [flatMap_filter_pages, flatMap_filter_pages]
+
 end NA.Nsx
